@@ -47,6 +47,30 @@ def compact(events, ifi="vf0"):
             c = f(e["labels"]) if f else None
             if c and e["labels"].split("|")[0] == ifi:
                 out.append({"ev": ev, "c": c, "t": t})
+        elif ev in ("scrape_call", "api_call"):
+            out.append({"ev": "qcall", "t": t})
+        elif ev == "scrape":
+            ok = not e.get("err") and not e.get("panic")
+            fwd, mis = False, False
+            for smp in e.get("samples") or []:
+                if smp.startswith("corerad_interface_forwarding{%s}=" % ifi):
+                    fwd = smp.endswith("=1")
+                if smp.startswith("corerad_advertiser_misconfiguration{%s|interface_not_forwarding}=1" % ifi):
+                    mis = True
+            out.append({"ev": "scrape", "ok": ok, "fwd": fwd, "misconf": mis, "t": t})
+        elif ev == "api":
+            ok, life = e.get("status") == 200, -1
+            if ok:
+                try:
+                    for it in json.loads(e["body"])["interfaces"]:
+                        if it["interface"] == ifi and it.get("advertisement"):
+                            life = it["advertisement"]["router_lifetime_seconds"]
+                except Exception:
+                    ok = False
+            out.append({"ev": "api", "ok": ok, "life": life, "t": t})
+        elif ev == "log":
+            if e.get("line", "").startswith(ifi + ": ") and "refusing to advertise a default route" in e.get("line", ""):
+                out.append({"ev": "mislog", "t": t})
         elif ev == "hook":
             out.append({"ev": ev, "life": e["life"], "body": e["body"], "t": t})
         elif ev == "cancel":
